@@ -313,6 +313,30 @@ class Methods:
         if name == 'encode':
             return Opaque('bytes')
         if name == 'format':
+            # '{:02d}{}'.format(a, b): the simple field forms are the %-directives of the same shape
+            f = S.const_value(env, s)
+            if f is not None and not kwargs:
+                import re as _re
+                out, order, auto, ok, pos = '', [], 0, True, 0
+                for m_ in _re.finditer(r'\{\{|\}\}|\{([0-9]*)(?::(0?[0-9]*)([dsxX]?))?\}|[{}]', f):
+                    out += f[pos:m_.start()].replace('%', '%%')
+                    pos = m_.end()
+                    t_ = m_.group(0)
+                    if t_ in ('{{', '}}'):
+                        out += t_[0]
+                    elif t_ in ('{', '}'):
+                        ok = False
+                    else:
+                        idx = int(m_.group(1)) if m_.group(1) else auto
+                        auto += 1
+                        if idx >= len(args):
+                            ok = False
+                            break
+                        order.append(args[idx])
+                        out += '%' + (m_.group(2) or '') + (m_.group(3) or 's')
+                if ok:
+                    out += f[pos:].replace('%', '%%')
+                    return self.str_format(S.const(out), Tup(order), env, node)
             return S.any_str(env)
         if name in ('title', 'capitalize', 'swapcase', 'casefold'):
             return S.any_str(env, 0, None)
